@@ -297,9 +297,13 @@ CLAIMED = {
             "table and report the same p, a, b, G, r, h and flags, plus an advertised level consistent with the order size; the embedding "
             "degree is checked two ways (multiplicative order of p modulo r against the declared family), the twist table of "
             "ep2_curve_set_twist is extracted too (coefficients, generator on the twist, h*r one of the six twist orders over Fp2), and the "
-            "GLV constants are checked per selection by the driver (k*G = k0*G + k1*psi(G) with short k0, k1; derived beta). PARTIAL: the "
-            "255/381-bit parameter sets are exercised by C04/C12/C13/C17 but not certified here, binary curves are checked per line in "
-            "C16, Frobenius constants through C10/C11.",
+            "GLV constants are checked per selection by the driver (k*G = k0*G + k1*psi(G) with short k0, k1; derived beta). The same "
+            "theorems hold for the tables extracted with the relic_conf.h of the 255-bit and 381-bit configurations (extra_* theorems: "
+            "2^255-19 with Curve25519 in Weierstrass form, the Tweedledum pair, BLS12-381 with p = (x-1)^2 (x^4-x^2+1)/3 + x, r = x^4-x^2+1, "
+            "cofactor (x-1)^2/3, embedding degree 12 and its twist), with their own identifier sweeps against libraries built in those "
+            "configurations; and for every integer x the BN and BLS12 family polynomials satisfy r(x) | Phi_12(p(x)) (resp. 81 Phi_12). "
+            "PARTIAL: binary curves are checked per line in C16, Frobenius constants through C10/C11, the parameter sets of the further "
+            "pairing field sizes (thorough sweeps of C10) are not certified.",
             "Trusted: Lean kernel (decide +kernel on literals); tools/translate_params.py (regex extraction after gcc -E; unknown "
             "constructs are translation failures); untrusted certificate search (sympy) — only the checked certificate counts; Hasse's "
             "theorem is a hypothesis of the reading 'h*r is the curve order'.",
